@@ -58,6 +58,16 @@ func main() {
 		verif := fs.String("verif", defaultVerifDir(), "verif directory")
 		fs.Parse(os.Args[2:])
 		os.Exit(runDump(*prop, *fn, *obl, *repo, *verif))
+	case "oracle":
+		// exploratory: run the executable oracles of a property against the real code
+		fs := flag.NewFlagSet("oracle", flag.ExitOnError)
+		prop := fs.String("property", "", "property id")
+		repo := fs.String("repo", "/repo", "repository directory")
+		verif := fs.String("verif", defaultVerifDir(), "verif directory")
+		budget := fs.Int("seconds", 10, "search budget")
+		only := fs.String("only", "", "oracle name substring")
+		fs.Parse(os.Args[2:])
+		os.Exit(runOracleCmd(*prop, *repo, *verif, *budget, *only))
 	case "replay":
 		if len(os.Args) < 3 {
 			usage()
